@@ -53,7 +53,77 @@ Definition api_coverage : list (string * cover) := [
   ("NewServices", Passthrough "hands provider.State() to the light query factories, which read through mkvs trees rooted at Core.StateRoot")
 ].
 
+(* Everything on the path from the provider's bytes to the compared hashes
+   (the guards, the decoders they call in go/consensus/cometbft/{api,light,
+   crypto/merkle,full}, the state-root / results-hash / latest-height helpers),
+   pinned by the SHA-256 of the printed declaration, plus the CometBFT module
+   version the hash functions come from.  A change to the decoding or
+   normalisation on the verification path (e.g. light.DecodeValidators
+   re-ordering the decoded set) breaks [stateless_api_covered]; the entry is
+   updated here only after the model was checked against the new code. *)
+Definition expected_verification_path : list (string * string) := [
+  ("consensus/cometbft/api.NewBlockResultsMeta", "e7c0a639dee28c4cce91338debac08f5d71057b31f28fb91ae562010cd597f41");
+  ("consensus/cometbft/crypto/merkle.Proofs", "40fb4b437fb33983c2dfcf9e1e52d89cae0de0bd47a94d7f3705507628df80c8");
+  ("consensus/cometbft/crypto/merkle.ProofsForTransactions", "445b543268d5f9cd7c52933c38ca9523eb2ddc4804c10756ce5b474e36fb694e");
+  ("consensus/cometbft/crypto/merkle.Verify", "7e136509908b64a80b47e31e077c052be77520b272bf6734361674fc25505cfd");
+  ("consensus/cometbft/crypto/merkle.VerifyTransaction", "8f32fe366c58d88c87b4e277f4a5550a3bddcdfe995a594fd09b5832c6890882");
+  ("consensus/cometbft/crypto/merkle.decodeProof", "bc59c3194fdcee4d044a2415ebe457caabb6c4bacfc54ddf1cece2497a981a6c");
+  ("consensus/cometbft/crypto/merkle.encodeProof", "cdda2507cf4f389dac0edb52e708a0d4be80f3aba767baa6c05265512ef38d9a");
+  ("consensus/cometbft/crypto/merkle.encodeProofs", "85381b3cfcd75223c4fc357ec0043ee02f1aa0624252a6846021631ac70b4730");
+  ("consensus/cometbft/crypto/merkle.hashTransaction", "50fcb69ccedbe71886e433e388b7801f32c8bc09b6cf75d93c0e8502f55fbb5d");
+  ("consensus/cometbft/crypto/merkle.hashTransactions", "038002941d426ea7fbf9bb2ae09be99edadf89786f5a2b0abe37d9ea217a9ce2");
+  ("consensus/cometbft/full.TransactionResultsFromCometBFT", "d4240457783f4ba1677635e8b2cb5ad38e6795725d6416d99241ed3ce6d5a82b");
+  ("consensus/cometbft/light.DecodeValidators", "79023658b95853a66e0f4d4de52733688a62d73a276a44dc173f9d75041e043d");
+  ("consensus/cometbft/light.EncodeLightBlock", "836a78964df5356b0716236b4735c8bbf96de21ac949cd68461cec41eb70251a");
+  ("consensus/cometbft/light.EncodeValidators", "6a2cd1a126aa0e4138dba0306d9b8d26816294fec0100aee7b63b6927f33530f");
+  ("consensus/cometbft/light.lightBlockToProto", "019fb5bb6ab6f73937ae8442c35aa60c202af3be5ad015c81ade3aba5a5902a0");
+  ("consensus/cometbft/stateless.Core.EstimateGas", "749f241f82a42326edbd7d4a1141c067ad4a699601bbd46074e498bcbb1f131b");
+  ("consensus/cometbft/stateless.Core.GetBlock", "3c4aa0b588110748ba8ced3e38c13935ce4db2cf9aefb72413164cd7b0cdad69");
+  ("consensus/cometbft/stateless.Core.GetBlockResults", "46715aad6a2f946553444645b98d86bb357dd75ffe204215a2206713f27f4359");
+  ("consensus/cometbft/stateless.Core.GetLatestHeight", "ca49140d1e9808d61e31e1d1d5187dfdd956e236097ec511b9fc506fd1a3acdd");
+  ("consensus/cometbft/stateless.Core.GetLightBlock", "ae56ebe5f329e763c15ed90a8ecd8119975b2e7bcf56e1a317bb0ad63f9476b6");
+  ("consensus/cometbft/stateless.Core.GetNextBlockState", "81abe62b8d7684336117f024074958757f7f92f2b455b1b17095b5ecf2bf0ad0");
+  ("consensus/cometbft/stateless.Core.GetParameters", "757b32368424d5d69d517b4c132d9bbfaead089fdda55f16912f9859484ecde1");
+  ("consensus/cometbft/stateless.Core.GetTransactions", "7d227f8d61e216c5a33e34cc57a6f00e26e3185bb4b56a1f2f1c6a738ef038b7");
+  ("consensus/cometbft/stateless.Core.GetTransactionsWithProofs", "dee6bfedc4aeff78941e6fb5c79980ce35b84f5e09124da3f809bc27de55fb68");
+  ("consensus/cometbft/stateless.Core.GetTransactionsWithResults", "42aa9b72fe97c2e9cd856da4202e870b0f6597f0379d977c325ea406ee8d71ed");
+  ("consensus/cometbft/stateless.Core.GetUnconfirmedTransactions", "d83b6a32379a0debc2a65dd12459ad9d44244aef40f4a1b7b6410d8ffdaedac8");
+  ("consensus/cometbft/stateless.Core.GetValidators", "789b21057a00cc0fbe965811f7aafe23699a6dd36d2c6ec9b53350c9e65c3044");
+  ("consensus/cometbft/stateless.Core.Serve", "1c136ea8d5da539ecf7c107bb3e59bfc066fe3a06ae6cc5e2015dafe28b08646");
+  ("consensus/cometbft/stateless.Core.State", "81af22bfbfa2fb4f76d8d9b60487f5b4f44c15ab0e608de96369762ea805f4a1");
+  ("consensus/cometbft/stateless.Core.StateRoot", "a9784d3909fedb95d9377e74107328c6663bb8010914e29659602ac6206a4bc4");
+  ("consensus/cometbft/stateless.Core.SubmitEvidence", "03323d7a402ffb2473c91171d5b4282582644ccf02ccd381f21293adde073f0c");
+  ("consensus/cometbft/stateless.Core.SubmitTx", "d81ef302ad37c5a1305ac3a53771c280bf9985f6f5582caad965883b67a5cd5e");
+  ("consensus/cometbft/stateless.Core.SubmitTxNoWait", "d74cf2b2cd0c9ff0d89df1cb6085177998740232f4183316c92202c9df94c1ad");
+  ("consensus/cometbft/stateless.Core.SubmitTxWithProof", "c502a693fd3b739cabdecc2c97c493bb5a3a4218d13d6be8773ef2dcfbb151c2");
+  ("consensus/cometbft/stateless.Core.fetchResultsHash", "3302a4e7e92ec8c2d8bdfb7b06083da84455e73c0ec7322166254d70ac4365ed");
+  ("consensus/cometbft/stateless.Core.fetchResultsHashFromLightBlock", "d916d195bfc75574254269fafe0f23ac04ac8e9605dbea1d7de170534c2eb365");
+  ("consensus/cometbft/stateless.Core.fetchStateRoot", "da974a0ba872e8ac70133e24ee1993dad94f485aa98a3e86b2faf0b680a0192a");
+  ("consensus/cometbft/stateless.Core.fetchStateRootFromLightBlock", "2f68b75168e7ad5249da7b21391c006ffe7a79fa3cb466894878137754db4329");
+  ("consensus/cometbft/stateless.Core.fetchStateRootFromMetaTx", "9afd2ed18db902e7e5fdaa199ca804ddbb1d590743cc14cbc423cea2ec63cb57");
+  ("consensus/cometbft/stateless.Core.handleNewBlock", "3d6bea613d98cb3a3bd26e1501fb1a17da5047123c4170f33594438f68592fad");
+  ("consensus/cometbft/stateless.Core.lightBlock", "c79da4a6915aea3786b372c37e7baa406e0d8347122439ff24e1b2e6ef9df779");
+  ("consensus/cometbft/stateless.Core.resolveHeight", "744676076fb9da96a93ccc23f313f8c1e2b1839ee987971b35288a8369ee491c");
+  ("consensus/cometbft/stateless.Core.resultsHash", "deab351c660401c450bf956ebeb2f725feb5ca5839683c6a615982c429742945");
+  ("consensus/cometbft/stateless.Core.retryLightBlock", "a39a64296350156c42d1e52c3176d9393f72d138a1f46265ae71ae6ebc4487db");
+  ("consensus/cometbft/stateless.Core.serve", "ced9126c67bfaa95d84cc1c11994da09cc2820d54eb418185dcb493d95267c71");
+  ("consensus/cometbft/stateless.Core.stateRoot", "bbb49f2757c2e640d0217f250242cae7664ae670fe94bc3fc9c847952029e91b");
+  ("consensus/cometbft/stateless.Core.verifyBlockResults", "d30c8430b52a061c6ee031dd8a2f1b38ebb01e234f9e5988e23a89340299429d");
+  ("consensus/cometbft/stateless.Core.verifyNextValidators", "27c6ef5c623e6980ddc387569f2b507df731b39285fd35229cb892c7a17af4aa");
+  ("consensus/cometbft/stateless.Core.verifyParameters", "e6dce65333712f76fc0f27817436f28a98bcb272dcd272a91b255c8997c8246c");
+  ("consensus/cometbft/stateless.Core.watchBlocks", "a0fd449513638da7a9d3881e7890ff3f746a7fd5d9acdf0b66862b1e3e66e650");
+  ("consensus/cometbft/stateless.stateRootFromBlockTxs", "78c216f6d4e60bccb1f8068b66ec2f05059798183a1d47beb7574d24fb72fd3b");
+  ("consensus/cometbft/stateless.stateRootFromMetaTx", "6853903a1ed3c0214fc6c3ecaf273c86c89dace8a4c83de49ebe9ec641e74933");
+  ("consensus/cometbft/stateless.transactionsWithProofs", "860e7b84258e88d35951aee09d591d3c5a1c3f13f859b3fecaa3321d4e2a3994");
+  ("consensus/cometbft/stateless.verifyBlock", "00d03e1376e729274ae475e039e1e756bbca62664cf182e41eb16962dc5577ba");
+  ("consensus/cometbft/stateless.verifyBlockResults", "aa45f5700887e170a7dcf3e611d11eabdba47a309be7a1cee50968d0b005beed");
+  ("consensus/cometbft/stateless.verifyTransactionProof", "5610a46c1b632cb6dab6353f288254688a290c875b58bc7e92d478087edbf195");
+  ("consensus/cometbft/stateless.verifyTransactions", "21a79b13286940fa9d3ca821aa31e2f32e97c8bec868df707ce0e895d2d50866");
+  ("go.mod cometbft", "github.com/oasisprotocol/cometbft v0.37.18-oasis3")
+].
+
 Lemma stateless_api_covered_l :
   stateless_provider_backed = expected_provider_backed /\
-  map fst api_coverage = map fst stateless_provider_backed.
-Proof. split; reflexivity. Qed.
+  map fst api_coverage = map fst stateless_provider_backed /\
+  stateless_verification_path = expected_verification_path.
+Proof. repeat split; reflexivity. Qed.
